@@ -4,10 +4,11 @@
 # per change.  Expects /repo to be clean.  A change marked "NOT detected" in its meta.json must pass.
 set -u
 TIER="${1:-quick}"
-cd /repo || exit 2
-[ -z "$(git status --porcelain --untracked-files=no)" ] || { echo "repo not clean"; exit 2; }
+# REPO_DIR / VERIF may point at the snapshots of a background run (vp run --with-repo)
+REPO="${REPO_DIR:-/repo}"; VERIF="${VERIF:-/verif}"
+cd "$REPO" || exit 2
 fail=0
-for d in /verif/seeded/*; do
+for d in "$VERIF"/seeded/*; do
     s=$(basename "$d"); prop=${s%%-*}
     props=$(python3 - "$d/meta.json" "$prop" <<'PY'
 import json,re,sys
@@ -22,14 +23,14 @@ print(' '.join(ps))
 PY
 )
     expect_detect=1; grep -q '"history": "NOT detected' "$d/meta.json" && expect_detect=0
-    git -C /repo apply "$d/patch.diff" 2>/dev/null || { echo "$s: PATCH DOES NOT APPLY"; fail=1; continue; }
+    (cd "$REPO" && git apply "$d/patch.diff" 2>/dev/null) || { echo "$s: PATCH DOES NOT APPLY"; fail=1; continue; }
     got=0; where=""
     for p in $props; do
-        (cd /verif && ./check "$p" "$TIER" >/tmp/seedrun.out 2>&1); rc=$?
+        (cd "$VERIF" && ./check "$p" "$TIER" >"$VERIF/target/seedrun.out" 2>&1); rc=$?
         if [ $rc -eq 1 ]; then got=1; where="$where $p"; fi
         if [ $rc -ge 2 ]; then where="$where $p(machinery rc=$rc)"; fi
     done
-    git -C /repo checkout -q -- .
+    (cd "$REPO" && git apply -R "$d/patch.diff")
     if [ $got -eq $expect_detect ]; then echo "$s: ok (detected by:${where:- none, as recorded})"; else echo "$s: UNEXPECTED (detected=$got by:$where, expected=$expect_detect)"; fail=1; fi
 done
 exit $fail
